@@ -156,7 +156,7 @@ func (s *Signature) Validate() error {
 // Verify will ensure that the provided key was used to sign the
 // signature and will provide the raw data that was signed.
 func (s *Signature) Verify(key *PublicKey) ([]byte, error) {
-	if s == nil || s.jws == nil || key == nil {
+	if s == nil || s.jws == nil || key == nil || key.jwk == nil {
 		return nil, ErrKeyMismatch
 	}
 	data, err := s.jws.Verify(key.jwk)
